@@ -142,12 +142,14 @@ func init() {
 		rng := rand.New(rand.NewSource(*seed))
 		rep := NewReport()
 		distinct := map[string]bool{}
+		phase := ""
+		runCases := func(conc, reps int) {
 		must(readNDJSON(*cases, func(raw json.RawMessage) error {
 			var c dlCase
 			if err := json.Unmarshal(raw, &c); err != nil {
 				return err
 			}
-			for k := 0; k < *conc; k++ {
+			for k := 0; k < conc; k++ {
 				link, segs := dlRender(&c, rng)
 				distinct[link] = true
 				want := dlOutcome{Kind: c.Expect.Kind}
@@ -158,14 +160,14 @@ func init() {
 					want.Value = segs[c.Expect.Seg-1]
 				}
 				var first dlOutcome
-				for r := 0; r < *reps; r++ {
+				for r := 0; r < reps; r++ {
 					got := dlRun(link)
 					rep.Evaluations++
 					if r == 0 {
 						first = got
 						rep.Sample(map[string]interface{}{"link": link, "expect": want, "got": got})
 					}
-					cls := fmt.Sprintf("scheme=%s:host=%s:port=%s:segs=%s", c.Scheme, hostClass(c.Host), c.Port, strings.Join(c.Segs, ","))
+					cls := phase + fmt.Sprintf("scheme=%s:host=%s:port=%s:segs=%s", c.Scheme, hostClass(c.Host), c.Port, strings.Join(c.Segs, ","))
 					item := map[string]interface{}{"link": link, "shape": c, "want": want, "got": got}
 					if got.Kind == "panic" || got.Kind == "other" {
 						rep.Disagree("panic:"+cls, fmt.Sprintf("Resolve(%q) panicked: %s", link, got.Err), item)
@@ -187,6 +189,29 @@ func init() {
 			}
 			return nil
 		}))
+		}
+		runCases(*conc, *reps)
+		// what the package hands out belongs to the caller: the list of hosts it reports is overwritten, sorted backwards and
+		// truncated by its caller, results of earlier resolutions are edited - and every link still resolves as specified
+		func() {
+			defer func() { recover() }()
+			hosts := deeplinks.ReservedHosts()
+			for i := range hosts {
+				hosts[i] = fmt.Sprintf("changed-by-caller-%d.example", i)
+			}
+			for _, l := range []string{"t.me/SomeUser", "https://telegram.me/joinchat/AbCdEf", "tg://resolve?domain=x"} {
+				if d, err := deeplinks.Resolve(l); err == nil {
+					switch v := d.(type) {
+					case *deeplinks.ResolveParameters:
+						v.Domain, v.Post = "changed-by-caller", 77
+					case *deeplinks.JoinParameters:
+						v.Invite = "changed-by-caller"
+					}
+				}
+			}
+		}()
+		phase = "after-the-caller-changed-what-it-was-handed:"
+		runCases(1, 2)
 		// unstructured strings: totality only
 		alphabet := []string{"t.me", "telegram.me", "/", "//", ":", "://", "http", "https", "tg", "?", "#", "%", "%zz", "%2F", "@", "[", "]", "joinchat", "a", "B", " ", "\x00", "\t", "é", "..", ":443", "::", "\\", "{", "}", "{token}", "+", "&", "="}
 		for i := 0; i < *nrand; i++ {
